@@ -589,4 +589,285 @@ theorem items_of_wf (f : Nat) (c : Bytes) (ts : List Tree) (h : wfTrees f c = so
   · exact items_of_parseAll f c ts h1 h2
   · exact items_of_parseUntilEoc f c ts h1 h2
 
+
+/-! ### the content of the trees is the concatenation of the primitive leaves -/
+
+theorem content_list (g : Nat)
+    (ih : ∀ t c, osContent 4 g t = some c → c = (osSegments g t).flatten) :
+    ∀ ts : List Tree, (∀ t ∈ ts, (osContent 4 g t).isSome) →
+      (ts.filterMap (osContent 4 g)).flatten = (ts.flatMap (osSegments g)).flatten := by
+  intro ts
+  induction ts with
+  | nil => intro _; rfl
+  | cons t ts iht =>
+    intro h
+    have h1 := h t (by simp)
+    cases hc : osContent 4 g t with
+    | none => simp [hc] at h1
+    | some c =>
+      have := ih t c hc
+      have h2 := iht (fun t' ht' => h t' (by simp [ht']))
+      simp only [List.filterMap_cons, hc, List.flatten_cons, List.flatMap_cons, List.flatten_append, h2, this]
+
+theorem content_eq_segments : ∀ (g : Nat) (t : Tree) (c : Bytes), osContent 4 g t = some c →
+    c = (osSegments g t).flatten := by
+  intro g
+  induction g with
+  | zero =>
+    intro t c h
+    cases t with
+    | prim id x =>
+      simp only [osContent] at h
+      split at h
+      · simp only [Option.some.injEq] at h; subst h; simp [osSegments]
+      · simp at h
+    | cons id b kids => simp [osContent] at h
+  | succ g ih =>
+    intro t c h
+    cases t with
+    | prim id x =>
+      simp only [osContent] at h
+      split at h
+      · simp only [Option.some.injEq] at h; subst h; simp [osSegments]
+      · simp at h
+    | cons id b kids =>
+      rw [osContent_cons] at h
+      split at h
+      · simp at h
+      · obtain ⟨h1, h2⟩ := foldl_accStep_some _ _ _ _ h
+        rw [h2, List.nil_append, content_list g ih kids h1]
+        rfl
+
+/-- for a list of OCTET STRING trees: concatenating the contents of the trees is concatenating the
+    primitive leaves -/
+theorem contents_eq_segments (g : Nat) (ts : List Tree) (h : osTrees g ts = true) :
+    (ts.filterMap (osContent 4 g)).flatten = (ts.flatMap (osSegments g)).flatten := by
+  apply content_list g (content_eq_segments g)
+  simpa [osTrees, List.all_eq_true] using h
+
+/-! ## C16, views of a constructed value -/
+
+/-- **C16 (views).**  For EVERY captured content `c` that is well-formed in the sense of `wfTrees`
+    (any number of values, any nesting depth, any sizes), every view of the value `.cons c`
+    succeeds — no panic, no fuel exhaustion — and presents exactly the contents of the primitive
+    leaves of the parsed trees in encoding order:
+    * the segment iterator yields every primitive leaf (including empty ones), in order;
+    * the octet iterator / `to_bytes` / `into_bytes` yield their concatenation, which is the
+      concatenation of the reference contents `Spec.osContent` of the trees;
+    * `len` is the length of that concatenation, `is_empty` says whether it is empty;
+    * `as_slice` is `None` for a constructed value. -/
+theorem views_eq_concat (f : Nat) (c : Bytes) (ts : List Tree) (h : wfTrees f c = some ts) :
+    OS.segments (.cons c) = .ok (ts.flatMap (osSegments f)) ∧
+    OS.octets (.cons c) = .ok (ts.flatMap (osSegments f)).flatten ∧
+    (ts.flatMap (osSegments f)).flatten = (ts.filterMap (osContent 4 f)).flatten ∧
+    (ts.filterMap (osContent 4 f)).length = ts.length ∧
+    OS.len (.cons c) = .ok (ts.flatMap (osSegments f)).flatten.length ∧
+    OS.isEmpty (.cons c) = .ok (ts.flatMap (osSegments f)).flatten.isEmpty ∧
+    OS.asSlice (.cons c) = none := by
+  obtain ⟨v1, v2, v3, v4, v5⟩ := views_items c _ (items_of_wf f c ts h)
+  have hos := (wfTrees_cases f c ts h).2
+  refine ⟨v1, v2, (contents_eq_segments f ts hos).symm, ?_, v3, v4, v5⟩
+  have hall : ∀ t ∈ ts, (osContent 4 f t).isSome := by simpa [osTrees, List.all_eq_true] using hos
+  clear h v1 v2 v3 v4 v5 hos
+  induction ts with
+  | nil => rfl
+  | cons t ts ih =>
+    have h1 := hall t (by simp)
+    cases hc : osContent 4 f t with
+    | none => simp [hc] at h1
+    | some x =>
+      simp only [List.filterMap_cons, hc, List.length_cons]
+      rw [ih (fun t' ht' => hall t' (by simp [ht']))]
+
+/-- the same against the tree of the WHOLE value: if the content octets `c` of a constructed
+    encoding parse to `kids` and the reference content of the value `.cons id indef kids`
+    (outer tag universal 4) is `r`, then every view presents `r` -/
+theorem octets_eq_osContent (f : Nat) (c : Bytes) (kids : List Tree) (id : Ident) (indef : Bool) (r : Bytes)
+    (hp : parseAll .ber f c = some kids ∨ parseUntilEoc .ber f c = some (kids, []))
+    (hc : osContent 4 (f + 1) (.cons id indef kids) = some r) :
+    OS.octets (.cons c) = .ok r ∧ OS.len (.cons c) = .ok r.length ∧
+    OS.isEmpty (.cons c) = .ok r.isEmpty ∧
+    (∃ segs, OS.segments (.cons c) = .ok segs ∧ segs.flatten = r) := by
+  obtain ⟨g', hg, _, _, hk⟩ := osContent_cons_some (f + 1) id indef kids (by rw [hc]; rfl)
+  have hg' : g' = f := by omega
+  subst hg'
+  have hr : r = (kids.flatMap (osSegments g')).flatten := content_eq_segments (g' + 1) _ r hc
+  have hi : Items c (kids.flatMap (osSegments g')) := by
+    rcases hp with hp | hp
+    · exact items_of_parseAll g' c kids hp hk
+    · exact items_of_parseUntilEoc g' c kids hp hk
+  obtain ⟨v1, v2, v3, v4, _⟩ := views_items c _ hi
+  rw [hr]
+  exact ⟨v2, v3, v4, _, v1, rfl⟩
+
+
+/-! ## C16, the value as a decoding source (`OctetStringSource`) -/
+
+theorem items_nil_inv (segs : List Bytes) (h : Items [] segs) : segs = [] := by
+  cases h with
+  | nil => rfl
+  | hdr _ id k len? kl _ hi => simp [readIdent] at hi
+  | eoc _ id k len? kl _ hi => simp [readIdent] at hi
+  | seg _ id k n kl _ hi => simp [readIdent] at hi
+
+/-- invariant of an `OctetStringSource`: the not yet delivered part of the value is `pend`;
+    `current` holds a prefix of it, the rest is the leaves of the remaining captured octets -/
+def SrcInv (s : OSS) (pend : Bytes) : Prop :=
+  ∃ segs, Items s.remainder segs ∧ s.current ++ segs.flatten = pend
+
+theorem srcInv_prefix (s : OSS) (pend : Bytes) (h : SrcInv s pend) : s.current <+: pend := by
+  obtain ⟨segs, _, h2⟩ := h
+  exact ⟨_, h2⟩
+
+theorem new_inv_prim (b : Bytes) : SrcInv (OSS.new (.prim b)) b :=
+  ⟨[], Items.nil, by simp [OSS.new]⟩
+
+theorem new_inv_cons (c : Bytes) (segs : List Bytes) (h : Items c segs) :
+    SrcInv (OSS.new (.cons c)) segs.flatten :=
+  ⟨segs, h, by simp [OSS.new]⟩
+
+/-- `next_current` on a remainder that is an item sequence -/
+theorem nextCurrent_items (s : OSS) (segs : List Bytes) (h : Items s.remainder segs) :
+    match segs with
+    | [] => OSS.nextCurrent s = .ok none
+    | x :: xs => ∃ rest, OSS.nextCurrent s = .ok (some (x, { s with remainder := rest })) ∧
+        Items rest xs ∧ rest.length + 2 ≤ s.remainder.length := by
+  have hn := iterNext_items s.remainder segs h (s.remainder.length + 2) (by omega)
+  cases segs with
+  | nil =>
+    simp only [NextOn] at hn
+    simp only [OSS.nextCurrent, hn, Bind.bind, Except.bind, pure, Except.pure]
+  | cons x xs =>
+    simp only [NextOn] at hn
+    obtain ⟨rest, r1, r2, r3⟩ := hn
+    exact ⟨rest, by simp only [OSS.nextCurrent, r1, Bind.bind, Except.bind, pure, Except.pure], r2, r3⟩
+
+/-- the `while current.len() < len` loop -/
+theorem fill_items (len : Nat) : ∀ (fuel : Nat) (s : OSS) (segs : List Bytes), Items s.remainder segs →
+    s.remainder.length < fuel →
+    ∃ s' segs', OSS.fill len fuel s = .ok s' ∧ Items s'.remainder segs' ∧
+      s'.current ++ segs'.flatten = s.current ++ segs.flatten ∧
+      s.current <+: s'.current ∧ (len ≤ s'.current.length ∨ segs' = []) := by
+  intro fuel
+  induction fuel with
+  | zero => intro s segs _ hf; omega
+  | succ fuel ih =>
+    intro s segs h hf
+    by_cases hlt : s.current.length < len
+    · have hn := nextCurrent_items s segs h
+      cases segs with
+      | nil =>
+        simp only at hn
+        refine ⟨{ s with remainder := [] }, [], ?_, Items.nil, by simp, List.prefix_refl _, Or.inr rfl⟩
+        simp only [OSS.fill, hlt, if_true, hn, Bind.bind, Except.bind, pure, Except.pure]
+      | cons x xs =>
+        simp only at hn
+        obtain ⟨rest, r1, r2, r3⟩ := hn
+        obtain ⟨s', segs', f1, f2, f3, f4, f5⟩ :=
+          ih ⟨s.current ++ x, rest⟩ xs r2 (by simp only; omega)
+        refine ⟨s', segs', ?_, f2, ?_, ?_, f5⟩
+        · simp only [OSS.fill, hlt, if_true, r1, Bind.bind, Except.bind]
+          exact f1
+        · rw [f3]; simp [List.append_assoc]
+        · exact List.IsPrefix.trans (List.prefix_append _ _) f4
+    · refine ⟨s, segs, ?_, h, rfl, List.prefix_refl _, Or.inl (by omega)⟩
+      simp only [OSS.fill, hlt, if_false, pure, Except.pure]
+
+/-- **C16 (source, `request`).**  On a source whose pending content is `pend`, `request len`
+    never fails; it returns the length of the (possibly extended) current slice, which is a prefix
+    of `pend` extending the old one, nothing of `pend` is lost or reordered, and the slice holds at
+    least `len` octets whenever `pend` has that many — otherwise it holds all of `pend`. -/
+theorem request_inv (s : OSS) (pend : Bytes) (len : Nat) (h : SrcInv s pend) :
+    ∃ s', OSS.request s len = .ok (s'.current.length, s') ∧ SrcInv s' pend ∧
+      s.current <+: s'.current ∧ s'.current <+: pend ∧
+      (len ≤ pend.length → len ≤ s'.current.length) ∧
+      (pend.length < len → s'.current = pend) := by
+  obtain ⟨segs, h1, h2⟩ := h
+  by_cases hc : s.current.length < len ∧ s.remainder ≠ []
+  · have hb : (decide (s.current.length < len) && !s.remainder.isEmpty) = true := by
+      obtain ⟨c1, c2⟩ := hc
+      cases hr : s.remainder with
+      | nil => exact absurd hr c2
+      | cons a b => simp [c1]
+    obtain ⟨s', segs', f1, f2, f3, f4, f5⟩ := fill_items len (s.remainder.length + 2) s segs h1 (by omega)
+    have hp : s'.current ++ segs'.flatten = pend := by rw [f3, h2]
+    refine ⟨s', ?_, ⟨segs', f2, hp⟩, f4, ⟨_, hp⟩, ?_, ?_⟩
+    · simp only [OSS.request, hb, if_true, f1, Bind.bind, Except.bind, pure, Except.pure]
+    · intro hl
+      rcases f5 with f5 | f5
+      · exact f5
+      · subst f5; simp at hp; rw [hp]; exact hl
+    · intro hl
+      rcases f5 with f5 | f5
+      · have := congrArg List.length hp
+        simp only [List.length_append] at this; omega
+      · subst f5; simpa using hp
+  · have hb : (decide (s.current.length < len) && !s.remainder.isEmpty) = false := by
+      by_cases c1 : s.current.length < len
+      · have c2 : s.remainder = [] := by
+          cases hr : s.remainder with
+          | nil => rfl
+          | cons a b => exact absurd ⟨c1, by simp [hr]⟩ hc
+        simp [c2]
+      · simp [c1]
+    refine ⟨s, ?_, ⟨segs, h1, h2⟩, List.prefix_refl _, ⟨_, h2⟩, ?_, ?_⟩
+    · simp only [OSS.request, hb, Bool.false_eq_true, if_false, pure, Except.pure]
+    · intro hl
+      by_cases c1 : s.current.length < len
+      · have c2 : s.remainder = [] := by
+          cases hr : s.remainder with
+          | nil => rfl
+          | cons a b => exact absurd ⟨c1, by simp [hr]⟩ hc
+        rw [c2] at h1
+        have := items_nil_inv segs h1
+        subst this
+        simp at h2; rw [h2]; exact hl
+      · omega
+    · intro hl
+      have c1 : s.current.length < len := by
+        have := congrArg List.length h2
+        simp only [List.length_append] at this; omega
+      have c2 : s.remainder = [] := by
+        cases hr : s.remainder with
+        | nil => rfl
+        | cons a b => exact absurd ⟨c1, by simp [hr]⟩ hc
+      rw [c2] at h1
+      have := items_nil_inv segs h1
+      subst this
+      simpa using h2
+
+/-- **C16 (source, `advance`).**  Advancing within the current slice drops exactly that many
+    octets from the front of the pending content; advancing past it is a panic (contract breach). -/
+theorem advance_inv (s : OSS) (pend : Bytes) (n : Nat) (h : SrcInv s pend) :
+    (n ≤ s.current.length → ∃ s', OSS.advance s n = .ok s' ∧ SrcInv s' (pend.drop n) ∧
+        s'.current = s.current.drop n) ∧
+    (s.current.length < n → OSS.advance s n = .error (.panic "advance past current")) := by
+  obtain ⟨segs, h1, h2⟩ := h
+  constructor
+  · intro hn
+    refine ⟨{ s with current := s.current.drop n }, by simp [OSS.advance, hn], ⟨segs, h1, ?_⟩, rfl⟩
+    rw [← h2, List.drop_append_of_le_length hn]
+  · intro hn
+    have : ¬ n ≤ s.current.length := by omega
+    simp [OSS.advance, this]
+
+/-- reading a whole value through the source: a request for at least as many octets as the value
+    holds makes the current slice the whole content -/
+theorem request_all (s : OSS) (pend : Bytes) (len : Nat) (h : SrcInv s pend) (hl : pend.length ≤ len) :
+    ∃ s', OSS.request s len = .ok (pend.length, s') ∧ s'.current = pend ∧ SrcInv s' pend := by
+  obtain ⟨s', r1, r2, r3, r4, r5, r6⟩ := request_inv s pend len h
+  have : s'.current = pend := by
+    by_cases he : pend.length = len
+    · have hge := r5 (by omega)
+      obtain ⟨t, ht⟩ := r4
+      have hlen := congrArg List.length ht
+      simp only [List.length_append] at hlen
+      have : t = [] := by
+        cases t with
+        | nil => rfl
+        | cons a b => simp at hlen; omega
+      subst this; simpa using ht
+    · exact r6 (by omega)
+  exact ⟨s', by rw [r1, this], this, r2⟩
+
 end Bcder.Props.C16
